@@ -360,7 +360,7 @@ impl<'p> Evaluator<'_, 'p> {
                         result.push_str(line);
                     }
                 } else {
-                    escape_string_json(&s, result);
+                    escape_string_yaml(&s, result);
                 }
             }
             ValueData::Array(array) => {
@@ -454,7 +454,7 @@ impl<'p> Evaluator<'_, 'p> {
                                 .push(State::AppendToString(field_name.value().into()));
                         } else {
                             let mut name_manifested = String::new();
-                            escape_string_json(field_name.value(), &mut name_manifested);
+                            escape_string_yaml(field_name.value(), &mut name_manifested);
                             self.state_stack
                                 .push(State::AppendToString(name_manifested));
                         }
@@ -890,9 +890,21 @@ fn escape_key_toml(s: &str) -> String {
 }
 
 pub(super) fn escape_string_json(s: &str, result: &mut String) {
+    escape_string(s, result, false);
+}
+
+fn escape_string_yaml(s: &str, result: &mut String) {
+    escape_string(s, result, true);
+}
+
+fn escape_string(s: &str, result: &mut String, yaml: bool) {
     result.push('"');
     for chr in s.chars() {
         match chr {
+            // Not printable characters in YAML, they cannot appear unescaped.
+            '\u{FFFE}' | '\u{FFFF}' if yaml => {
+                write!(result, "\\u{:04x}", chr as u32).unwrap();
+            }
             '\u{8}' => result.push_str("\\b"),
             '\t' => result.push_str("\\t"),
             '\n' => result.push_str("\\n"),
